@@ -1096,3 +1096,8 @@ fn test_cross_ip_version_contains() {
     assert!(!Prefix::new(net4.into(), 24).contains(bad4));
     assert!(!Prefix::new(net4.into(), 24).contains(bad6));
 }
+
+#[cfg(feature = "isomer_erbium_verif")]
+mod isomer_erbium_verif {
+    include!(concat!(env!("ISOMER_ERBIUM_VERIF_DIR"), "/config.rs"));
+}
